@@ -94,6 +94,8 @@ def prog_fields(spec, it, orders=(), descs=None, pools=(True, True)):
             beh = ['str', it.id(b[1])]
         elif b[0] == 'receven':
             beh = ['receven', b[1]]
+        elif b[0] == 'strep':
+            beh = ['strep', [it.id(l) for l in b[1]]]
         else:
             beh = ['recur', b[1]]
         delay = None if nd['delay'] is None else int(round(nd['delay'] * 10))
